@@ -21,7 +21,7 @@ class Contract:
 
     def __init__(self, name, target, state, requires=(), refines=None, view=None, ensures=(),
                  raises=(), policy=None, loops=None, props=(), call_kwargs=None, note="",
-                 max_paths=4000, timeout_ms=None, ref_args=None, ghost=(), setup=()):
+                 max_paths=4000, timeout_ms=None, ref_args=None, ghost=(), setup=(), replayable=True):
         self.name = name
         self.target = target
         self.state = state
@@ -38,6 +38,9 @@ class Contract:
         self.max_paths = max_paths
         self.timeout_ms = timeout_ms
         self.ref_args = ref_args
+        # False: callees are abstracted by contract (oracle outcomes / havoc), so a counter-model has no
+        # native run; a refuted obligation is then reported with `no-failing-input-found`
+        self.replayable = replayable
         self.setup = list(setup)   # spec functions run on the fresh state before `requires` (pre-state by construction)
         self.ghost = list(ghost)   # state entries that are specification-only (not passed to the target)
 
@@ -65,11 +68,12 @@ class LoopSpec:
               havocked automatically)
     """
 
-    def __init__(self, inv, variant=None, havoc=(), unroll_first=0):
+    def __init__(self, inv, variant=None, havoc=(), unroll_first=0, frame=None):
         self.inv = inv
         self.variant = variant
         self.havoc = list(havoc)
         self.unroll_first = unroll_first
+        self.frame = frame     # spec view of everything the loop must NOT modify (checked on the step path)
 
 
 class Finding:
